@@ -73,10 +73,13 @@ def check(col, prog, tier, profile, fixture=None):
         if not cands:
             raise Anchor("cannot evaluate the Writer buffer capacity %s" % capt_)
         cap = int(cands[0]["val"])
-    wb = util.need_body(crate, "Writer::<'a>::write_bytes")
     fl = util.need_body(crate, "Writer::<'a>::flush")
     wr = util.need_body(crate, "Writer::<'a>::write")
     wc = util.need_body(crate, "Writer::<'a>::write_char")
+    # the private primitive appender is recognised by what it does (copies a byte slice into the buffer), under any name
+    wb = util.resolve_role(crate, [wc] + [b_ for b_ in crate.bodies if not b_.is_closure and b_.name == "write" and str((crate.impl_of(b_) or {}).get("trait") or "").endswith("Writable")], "write_bytes",
+                           lambda b_: not util.self_recursive(b_) and "Writer<" in str((crate.impl_of(b_) or {}).get("self_ty")) and b_.arg_count == 2 and str(b_.locals[2]["ty"]).startswith("&[u8") and any(t_["fn"].get("name") == "copy_from_slice" for _bb, t_ in b_.calls()),
+                           "the Writer method that copies a byte slice into the buffer", named_ok=lambda _b: True)
     helpers = util.private_helpers(crate, "Writer", exclude=[wb, fl, wr, wc])
     A = util.analyser(helpers)
     col.rule("V1" + sfx, "reserve(len) -> copy into buf[end..end+len] -> end += len; reserve flushes iff end+size > capacity; callers pass bounded slices", floor=8)
@@ -100,6 +103,9 @@ def check(col, prog, tier, profile, fixture=None):
         adv = [k for k, e in enumerate(evs) if e.kind == "store" and e.place == ("field", selfp, END)]
         key = "%s|room-copy-advance" % fk(wb)
         why = None
+        if not cp and not adv and any(f[0] == "eq" and isinstance(f[1], tuple) and f[1] and f[1][0] == "bin" and ((f[1][1] == "Eq" and f[2] == 1) or (f[1][1] == "Ne" and f[2] == 0)) and {f[1][2], f[1][3]} == {L, mk_int(0)} for f in st.facts):
+            col.ok("V1" + sfx, wb.loc(), key + "|%d|empty" % n, "empty slice: nothing to append, nothing changes")
+            continue
         if len(cp) != 1:
             why = "%d copies into the buffer on one path" % len(cp)
         else:
@@ -268,13 +274,16 @@ def check(col, prog, tier, profile, fixture=None):
         for st in I.final_states:
             evs = st.event_list()
             fidx = [k for k, e in enumerate(evs) if _is(e, fl)]
-            payload = [k for k, e in enumerate(evs) if e.kind == "call" and not _is(e, fl) and (e.extra.get("name") in ("write", "write_bytes"))]
+            # the payload: a call of write / write_bytes, or (a verified one-byte appender, V1) a store into the buffer;
+            # a flush that makes room BEFORE the payload (reserve) is not the per-write flush
+            payload = [k for k, e in enumerate(evs) if (e.kind == "call" and not _is(e, fl) and (e.extra.get("name") in ("write", "write_bytes"))) or (e.kind == "store" and e.place[0] == "index" and isinstance(e.place[1], tuple) and e.place[1][0] == "field" and e.place[1][2] == BUF)]
             key = "%s|flush-per-write" % fk(b)
+            after = [k for k in fidx if payload and k > max(payload)]
             if profile == "dev":
-                ok = fidx and payload and max(payload) < min(fidx)
+                ok = bool(payload) and bool(after)
                 msg = "debug build: %s must flush after writing" % b.path
             else:
-                ok = not fidx and payload
+                ok = bool(payload) and not after
                 msg = "release build: %s must not flush on every write (buffered mode)" % b.path
             if ok:
                 col.ok("V4" + sfx, b.loc(), key, "payload then flush" if profile == "dev" else "buffered, no flush")
@@ -285,12 +294,16 @@ def check(col, prog, tier, profile, fixture=None):
     writers = set()
     for b in crate.bodies:
         for bb, idx, s in b.statements():
-            if s["k"] == "assign" and any(e[0] == "field" and e[1] == END and e[2] == "end" and e[3] == "usize" for e in s["place"]["p"]) and any(e[0] == "deref" for e in s["place"]["p"]):
+            if s["k"] == "assign" and any(e[0] == "field" and e[1] == END and e[3] == "usize" for e in s["place"]["p"]) and any(e[0] == "deref" for e in s["place"]["p"]):
                 tyroot = b.locals[s["place"]["l"]]["ty"]
                 if "Writer<" in tyroot:
                     writers.add(b.name)
-                    if b.name not in ("write_bytes", "flush", "new"):
-                        col.violation("V5" + sfx, "%s|stores-end" % fk(b), b.loc(bb, idx), "%s modifies the fill level of the buffer; only write_bytes and flush may" % b.path)
+                    if b.key not in (wb.key, fl.key) and b.name != "new" and b.key not in {h_.key for h_ in helpers}:
+                        why1 = _single_byte_append(b, helpers + [fl], BUF, END, cap)
+                        if why1 is None:
+                            col.ok("V1" + sfx, b.loc(bb, idx), "%s|single-byte-append" % fk(b), "room for one byte entailed; buf[end] <- byte; end += 1 (a second primitive appender, judged like write_bytes)")
+                            continue
+                        col.violation("V5" + sfx, "%s|stores-end" % fk(b), b.loc(bb, idx), "%s modifies the fill level of the buffer; only write_bytes and flush may (and it is not a one-byte append at the fill level: %s)" % (b.path, why1))
     col.ok("V5" + sfx, "-", "end-writers=%s" % ",".join(sorted(writers)), "end is stored only in %s" % sorted(writers))
 
     # ---------------- V6 / V7
@@ -382,6 +395,40 @@ def check(col, prog, tier, profile, fixture=None):
                 col.ok("V8" + sfx, b.loc(), key, "W (S W)*: %s" % ("index 0 without separator, every other element preceded by one ' '" if form_a else "first element, then ' ' + element for the rest"))
             else:
                 col.violation("V8" + sfx, key, b.loc(), "sequence writer must emit one ' ' before every element except the first (and none after the last)")
+
+
+def _single_byte_append(b, inl, BUF, END, cap):
+    """None when every path of b that touches the buffer is: room for one byte entailed (end + 1 <= capacity, after a
+    possible flush), exactly one store buf[end_now] := byte, then end := end_now + 1; else the reason"""
+    I = util.analyser(inl)(b)
+    selfp = ("deref", ("param", 1, I.names.get(1)))
+    end0 = ("load", ("m0",), ("field", selfp, END))
+    for st in I.final_states:
+        evs = st.event_list()
+        bs = [k for k, e in enumerate(evs) if e.kind == "store" and e.place[0] == "index" and e.place[1] == ("field", selfp, BUF)]
+        adv = [k for k, e in enumerate(evs) if e.kind == "store" and e.place == ("field", selfp, END)]
+        other = [e for e in evs if e.kind == "call" and e.extra.get("name") in ("copy_from_slice", "copy_within", "fill")]
+        if other:
+            return "copies a slice into the buffer"
+        if not bs and not adv:
+            continue
+        if len(bs) != 1:
+            return "%d byte stores on one path" % len(bs)
+        sb = evs[bs[0]]
+        idx = sb.place[2]
+        cur_end = I.load(sb.state[1], ("field", selfp, END))
+        facts = set(sb.state[0]) | {("eq", ("bin", "Le", end0, mk_int(cap)), 1)}
+        z = zones.zone_of(frozenset(facts), I.tys)
+        if not (idx == cur_end or z.entails("Eq", idx, cur_end)):
+            return "the byte is not stored at the current fill level"
+        if not z.entails("Le", ("bin", "Add", idx, mk_int(1)), mk_int(cap)):
+            return "end + 1 <= capacity is not entailed at the store"
+        later = [k for k in adv if k > bs[0]]
+        if len(later) != 1 or not util.lin_equal(evs[later[0]].val, ("bin", "Add", idx, mk_int(1))):
+            return "end is not advanced by exactly one after the store"
+        if [k for k in adv if k < bs[0] and evs[k].val != mk_int(0)]:
+            return "end changes before the store other than by a flush"
+    return None
 
 
 def _slice_iter_exhausted(st, pre):
@@ -515,6 +562,9 @@ def _digits(col, crate, base10, wb, wc, wr, sfx):
             for st in I.final_states:
                 evs = st.event_list()
                 zero = any(f[0] == "eq" and f[2] == 1 and isinstance(f[1], tuple) and f[1][0] == "bin" and f[1][1] == "Eq" and f[1][3] in (("ref", ("constval", mk_int(0))), mk_int(0)) and f[1][2][0] != "bin" for f in st.facts)
+                # `match *self { 0 => .., rest => .. }`: the switch is on the value itself
+                selfval = ("load", ("m0",), ("deref", ("param", 1, I.names.get(1))))
+                zero = zero or any(f[0] == "eq" and f[1] == selfval and f[2] == 0 and not isinstance(f[2], bool) for f in st.facts)
                 tails = [e for e in evs if _is(e, wb)]
                 if zero and not tails:
                     okz = okz or any(_is(e, wc) and e.args[1] == mk_int(48) for e in evs)
